@@ -470,6 +470,7 @@ pub fn eval_isolated(oracle: OracleFn, case: &[u8], limit: Duration) -> Iso {
     let (tx, rx) = mpsc::channel();
     let c = case.to_vec();
     let parked_before = alloc::PARKED.load(Ordering::SeqCst);
+    let refused_before = alloc::REFUSED.load(Ordering::SeqCst);
     let _ = std::thread::Builder::new().stack_size(16 << 20).spawn(move || {
         let mut obs = Obs::default();
         let r = eval(oracle, &c, &mut obs);
@@ -481,7 +482,7 @@ pub fn eval_isolated(oracle: OracleFn, case: &[u8], limit: Duration) -> Iso {
             Ok(Ok(())) => return Iso::Pass,
             Ok(Err(m)) => return Iso::Fail(m),
             Err(mpsc::RecvTimeoutError::Timeout) => {
-                if alloc::PARKED.load(Ordering::SeqCst) > parked_before {
+                if alloc::PARKED.load(Ordering::SeqCst) > parked_before || alloc::REFUSED.load(Ordering::SeqCst) > refused_before {
                     return Iso::Stuck;
                 }
                 if t0.elapsed() > limit {
@@ -708,6 +709,7 @@ pub fn run_property(prop: &Property, tier: Tier, seed: u64) -> RunOutcome {
         let mut results: Vec<StreamResult> = vec![];
         let mut lost: HashSet<usize> = HashSet::new();
         let mut parked_seen = alloc::PARKED.load(Ordering::SeqCst);
+        let mut refused_seen = alloc::REFUSED.load(Ordering::SeqCst);
         let mut hang_abort = false;
         let mut park_abort = false;
         let limit = match (std::env::var("VERIF_HANG_SECS").ok().and_then(|v| v.parse::<u64>().ok()), sub.hang_secs) {
@@ -752,6 +754,28 @@ pub fn run_property(prop: &Property, tier: Tier, seed: u64) -> RunOutcome {
                 }
             }
             if park_abort {
+                break;
+            }
+            // a request the system refused (the thread is parked instead of aborting the process): not a verdict
+            let rf = alloc::REFUSED.load(Ordering::SeqCst);
+            if rf > refused_seen {
+                refused_seen = rf;
+                let si = alloc::REFUSED_SLOT.load(Ordering::SeqCst);
+                let size = alloc::REFUSED_SIZE.load(Ordering::SeqCst);
+                let saved = if si < slots.len() {
+                    let mut s = slots[si].lock().unwrap();
+                    let p = write_case_file(&out_dir, prop.id, sub.name, &s.case, "the system refused an allocation (inconclusive)", None);
+                    if s.stream < STREAMS {
+                        lost.insert(s.stream);
+                    }
+                    s.started = None;
+                    s.stream = usize::MAX;
+                    format!("{}", p.display())
+                } else {
+                    "<unknown case>".to_string()
+                };
+                inconclusive = Some(format!("subcheck {}: the system refused an allocation of {} bytes outside any allocation window (case saved at {}); the requesting thread was parked", sub.name, size, saved));
+                stop.store(true, Ordering::SeqCst);
                 break;
             }
             // hung worker?
